@@ -753,6 +753,21 @@ func reportDiffs(c *xctx, cs *Case, diffs []diff, extra map[string]interface{}) 
 // ---------------------------------------------------------------------------
 // client→wire.
 
+// callClient makes the one public API call the case describes.
+func callClient(cl *caldav.Client, cs *Case) error {
+	z := newZoner(cs.ZoneMode)
+	compReq := toCompReq(cs.Req.Prop.Data, z)
+	var err error
+	if cs.Req.Kind == "calendar-query" {
+		q := &caldav.CalendarQuery{CompRequest: compReq, CompFilter: toCompFilter(*cs.Req.Filter, z)}
+		_, err = cl.QueryCalendar(context.Background(), cs.Path, q)
+	} else {
+		mg := &caldav.CalendarMultiGet{Paths: append([]string(nil), cs.Paths...), CompRequest: compReq}
+		_, err = cl.MultiGetCalendar(context.Background(), cs.Path, mg)
+	}
+	return err
+}
+
 func execCW(c *xctx, cs *Case) {
 	z := newZoner(cs.ZoneMode)
 	capt := &doubles.Capture{}
@@ -761,19 +776,10 @@ func execCW(c *xctx, cs *Case) {
 		c.Inconclusive(fmt.Sprintf("C08: caldav.NewClient(%q): %v", cs.Endpoint, err))
 		return
 	}
-	compReq := toCompReq(cs.Req.Prop.Data, z)
 	query := cs.Req.Kind == "calendar-query"
 	var callErr error
 	c.Journal(cs)
-	panicked, pv, stack := fw.Guard(func() {
-		if query {
-			q := &caldav.CalendarQuery{CompRequest: compReq, CompFilter: toCompFilter(*cs.Req.Filter, z)}
-			_, callErr = cl.QueryCalendar(context.Background(), cs.Path, q)
-		} else {
-			mg := &caldav.CalendarMultiGet{Paths: append([]string(nil), cs.Paths...), CompRequest: compReq}
-			_, callErr = cl.MultiGetCalendar(context.Background(), cs.Path, mg)
-		}
-	})
+	panicked, pv, stack := fw.Guard(func() { callErr = callClient(cl, cs) })
 	c.JournalDone()
 	c.Eval(1)
 	nreq := len(capt.Reqs)
@@ -1129,6 +1135,15 @@ func oneLine(s string) string {
 // ---------------------------------------------------------------------------
 
 func exec(c *xctx, cs *Case) {
+	if len(cs.Group) > 0 {
+		switch cs.Dir {
+		case dirCW:
+			execOverlapCW(c, cs)
+		case dirWB:
+			execOverlapWB(c, cs)
+		}
+		return
+	}
 	switch cs.Dir {
 	case dirCW:
 		execCW(c, cs)
@@ -1160,6 +1175,19 @@ func run(fc *fw.Ctx) {
 			continue
 		}
 		exec(c, genWB(fc.Rand("c08-wb", i)))
+	}
+	// Overlap families: several requests in flight through one Client / one
+	// Handler.
+	ncw, nwb := fc.Pick(3000, 40000), fc.Pick(1500, 20000)
+	for i := 0; i < ncw; i++ {
+		if fc.Mine(i) {
+			exec(c, genOverlap(fc.Rand("c08-cw-overlap", i), dirCW))
+		}
+	}
+	for i := 0; i < nwb; i++ {
+		if fc.Mine(i) {
+			exec(c, genOverlap(fc.Rand("c08-wb-overlap", i), dirWB))
+		}
 	}
 }
 
@@ -1219,11 +1247,22 @@ func init() {
 			}
 			if json.Unmarshal(w, &wit) == nil && wit.Case != nil {
 				x := newX(c)
-				exec(x, wit.Case)
+				// An overlap witness may depend on process history (warm
+				// pools, scheduling): give it a few attempts.
+				tries := 1
+				if len(wit.Case.Group) > 0 {
+					tries = 8
+				}
+				for i := 0; i < tries && len(x.found) == 0; i++ {
+					exec(x, wit.Case)
+				}
 				x.flush()
 			}
 		},
-		Rule: "client→wire: generated CalendarQuery / CalendarMultiGet values (filter trees of depth <= 4 and fan-out <= 3, every flag, names/texts with blanks, XML metacharacters and non-ASCII, " +
+		Rule: "overlap families: K=2..8 different requests in flight together at GOMAXPROCS 1/2/4/8 - client→wire: K goroutines call QueryCalendar/MultiGetCalendar on ONE caldav.Client whose HTTP client parks every request " +
+			"until all K have been built, then reads the bodies in a seeded order; each body (attributed by its unique request target) must decode to the same request as the body the same call sends alone; " +
+			"wire→backend: K REPORTs served concurrently by ONE caldav.Handler whose backend parks the first call of each request until all K are inside, and each request must deliver what it delivers alone. " +
+			"client→wire: generated CalendarQuery / CalendarMultiGet values (filter trees of depth <= 4 and fan-out <= 3, every flag, names/texts with blanks, XML metacharacters and non-ASCII, " +
 			"instants in UTC and in fixed zones of -14h..+14h with and without sub-second parts, open starts/ends, expansion ranges, component/property selections, 0..20 hrefs with hostile names) are given to the real " +
 			"caldav.Client over a capturing HTTP client; the captured REPORT body is read by the independent RFC 4791 reader (namespaces, names, DTD child order, value grammars) and the decoded request is compared " +
 			"field by field with the caller's. wire→backend: the independent RFC 4791 writer renders a neutral request in a random lexical form (prefixes, default namespaces, attribute order, white space, comments, " +
@@ -1237,6 +1276,7 @@ func init() {
 			"CalendarMultiGet with empty Paths: sending the collection path as the only href (documented) or refusing are both accepted",
 			"calendar-multiget Depth header and the extra DAV properties the client asks for (getetag, getlastmodified) are not judged",
 			"wire→backend: when the document requests no calendar-data, or a calendar-data without comp, the backend's CalendarCompRequest comp fields are not compared (semantics 'everything'); timezone, limit-recurrence-set, limit-freebusy-set, collation, novalue, content-type/version are varied on the wire but not compared",
+			"overlap families: nothing in the statement restricts a Client or Handler to one request at a time; the barrier opens when every member is parked or has returned (no wall-clock); the solo run of the same call is the reference, and is itself judged by the ordinary oracle",
 			"the writer's output is cross-checked by the reader before every wire→backend case (disagreement = inconclusive, never a finding)",
 		},
 		MinEvals:    func(t string) int64 { return 8000 },
